@@ -297,8 +297,8 @@ func (x *SendC[T]) state(e *Exec) *chanState {
 }
 func (x *SendC[T]) isRecv() bool                { return false }
 func (x *SendC[T]) ready(e *Exec, self *G) bool { return e.sendReady(x.state(e), len(x.c), self) }
-func (x *SendC[T]) offered() interface{}      { return x.v }
-func (x *RecvC[T]) offered() interface{}      { return nil }
+func (x *SendC[T]) offered() interface{}        { return x.v }
+func (x *RecvC[T]) offered() interface{}        { return nil }
 func (x *SendC[T]) fire(e *Exec, op *Op) {
 	s := x.state(e)
 	if op.pulled != s {
